@@ -20,12 +20,14 @@
      been used;
    - time is a logical clock in milliseconds. *)
 From Coq Require Import List NArith Bool.
+From V.common Require Import Wire.   (* sort_by *)
 Import ListNotations.
 Open Scope N_scope.
 
 Record cfg := mkCfg {
   max_inb : option N;     (* max_concurrent_inbound_requests *)
-  ndial : N;              (* peers 0..ndial-1 have a known address: dial() is accepted *)
+  ndial : N;              (* initially the transport manager knows an address of peers 0..ndial-1 (disconnected);
+                             the other peers are unknown to it *)
   max_size : N;           (* codec: UnsignedVarint(Some(max_size)) *)
   tmo : N;                (* request timeout, ms *)
   selfp : bool            (* peer SELF_PEER is the local peer id: dial() fails with TriedToDialSelf *)
@@ -92,13 +94,29 @@ Inductive out :=
 Definition E_CONN_CLOSED : N := 0.      (* Rejected(ConnectionClosed) *)
 Definition E_SUB_CLOSED : N := 1.       (* Rejected(SubstreamClosed) *)
 Definition E_DIAL_FAILED : N := 2.      (* Rejected(DialFailed(None)) *)
-Definition E_DIAL_IMMEDIATE : N := 3.   (* Rejected(DialFailed(Some(_))) *)
+Definition E_DIAL_IMMEDIATE : N := 3.   (* Rejected(DialFailed(Some(_))), before round 4; now E_DIAL_IMM r *)
 Definition E_SUBSTREAM : N := 4.        (* Rejected(SubstreamOpenError(_)) *)
 Definition E_CANCELED : N := 5.         (* Canceled (never reported) *)
 Definition E_TIMEOUT : N := 6.
 Definition E_NOT_CONNECTED : N := 7.
 Definition E_TOO_LARGE : N := 8.
 Definition E_UNSUPPORTED : N := 9.
+
+(* Every result of TransportService::dial(peer) (= TransportManagerHandle::dial).  Ok(()) comes in
+   two flavours the protocol cannot tell apart: a DialPeer command was sent to the manager, or a
+   dial of that peer was already in progress.  The errors are the variants of ImmediateDialError
+   (src/error.rs); PeerIdMissing is only ever produced by dial_address but has a code all the same. *)
+Definition D_OK : N := 0.            (* Ok(()): DialPeer command queued *)
+Definition D_INPROGRESS : N := 1.    (* Ok(()): Dialing / Opening / Disconnected with a dial record *)
+Definition D_SELF : N := 2.          (* TriedToDialSelf *)
+Definition D_CONNECTED : N := 3.     (* AlreadyConnected *)
+Definition D_NOADDR : N := 4.        (* NoAddressAvailable *)
+Definition D_TASKCLOSED : N := 5.    (* TaskClosed *)
+Definition D_CLOGGED : N := 6.       (* ChannelClogged *)
+Definition D_NOPEERID : N := 7.      (* PeerIdMissing *)
+Definition dial_accepted (r : N) : bool := r <? 2.
+(* RequestFailed code of Rejected(DialFailed(Some(variant))) *)
+Definition E_DIAL_IMM (r : N) : N := 10 + r.
 
 Definition memN (x : N) (l : list N) : bool := existsb (N.eqb x) l.
 Definition pair_eqb (a b : N * N) : bool := (fst a =? fst b) && (snd a =? snd b).
@@ -112,9 +130,10 @@ Inductive fres := ROk (len tag : N) | RErr (code : N).
 (* ------------------------------------------------------------------ outbound side *)
 
 (* handle_user_command(SendRequest) after RequestResponseHandle::send_request allocated the id.
-   open_ok / sid: result of TransportService::open_substream; dial_ok: result of dial(). *)
+   open_ok / sid: result of TransportService::open_substream; dres: result of dial() (D_* above),
+   an arbitrary choice of the environment. *)
 Definition h_send (s : pst) (p : N) (dial : bool) (len tag : N) (fb : option (N * N * N))
-           (open_ok dial_ok : bool) (sid : N)
+           (open_ok : bool) (dres : N) (sid : N)
   : pst * list out :=
   let rid := next_rid s in
   let q := mkReq rid len tag fb in
@@ -124,8 +143,8 @@ Definition h_send (s : pst) (p : N) (dial : bool) (len tag : N) (fb : option (N 
       (set_pouts (set_active s (active s ++ [(p, rid)])) (pouts s ++ [mkPo sid p q]), [OSent rid; OOpen sid p])
     else (s, [OSent rid; OFail rid E_SUBSTREAM])
   else if negb dial then (s, [OSent rid; OFail rid E_NOT_CONNECTED])
-  else if dial_ok then (set_dials s (dials s ++ [(p, q)]), [OSent rid; ODial p])
-  else (s, [OSent rid; OFail rid E_DIAL_IMMEDIATE]).
+  else if dial_accepted dres then (set_dials s (dials s ++ [(p, q)]), [OSent rid; ODial p])
+  else (s, [OSent rid; OFail rid (E_DIAL_IMM dres)]).
 
 (* RequestResponseHandle::try_send_request drew a request id but the command channel was full
    (ChannelClogged): the id is gone, nothing was handed to the protocol *)
@@ -203,13 +222,18 @@ Definition drop_po (po : pout) (l : list pout) : list pout :=
   filter (fun x => negb (q_rid (po_req x) =? q_rid (po_req po))) l.
 
 (* on_substream_open_failure *)
-Definition h_openfail (s : pst) (sid : N) (unsupported : bool) : pst * list out :=
+(* the error of the SubstreamOpenFailure: 0 = some substream error (Rejected(SubstreamOpenError)),
+   1 = multistream-select says the protocol is not supported (UnsupportedProtocol), 2 = an i/o
+   error of kind NotConnected, which RejectReason::from turns into Rejected(ConnectionClosed) *)
+Definition openfail_code (kind : N) : N :=
+  match kind with 1 => E_UNSUPPORTED | 2 => E_CONN_CLOSED | _ => E_SUBSTREAM end.
+Definition h_openfail (s : pst) (sid : N) (unsupported : N) : pst * list out :=
   match find_po sid (pouts s) with
   | None => (s, [])
   | Some po =>
     let rid := q_rid (po_req po) in
     (set_active (set_pouts s (drop_po po (pouts s))) (removeP (po_peer po, rid) (active s)),
-     [OFail rid (if unsupported then E_UNSUPPORTED else E_SUBSTREAM)])
+     [OFail rid (openfail_code unsupported)])
   end.
 
 (* on_substream_event: the verdict of a request future reaches the user only while the request
@@ -413,7 +437,13 @@ Record chan := mkCh { c_gate : N; c_seen : bool; c_out : bool }.
    caps: capacity of each scripted connection's command channel (0 = roomy);
    cused: one entry per OpenSubstream command that sits in a connection's command channel
           (the transport reads them only after the protocol has run: EDrain) *)
-Record aux := mkAux { a_mgr : bool; a_caps : list (N * N); a_cused : list N }.
+(* a_view: what the transport manager believes about a peer, when it differs from the initial
+          belief (it lags behind or runs ahead of what the protocol was told): 0 unknown peer,
+          1 disconnected with an address, 2 connected, 3 dialing, 4 disconnected with an empty
+          address store, 5 disconnected with a dial record, 6 opening;
+   a_clog: the command channel to the manager is full *)
+Record aux := mkAux { a_mgr : bool; a_caps : list (N * N); a_cused : list N;
+                      a_view : list (N * N); a_clog : bool }.
 
 Record env := mkE {
   aux_of : aux;
@@ -425,7 +455,7 @@ Record env := mkE {
   hpend : list N                (* RequestResponseHandle::pending_responses *)
 }.
 
-Definition init_env : env := mkE (mkAux true [] []) 0 [] [] [] 0 [].
+Definition init_env : env := mkE (mkAux true [] [] [] false) 0 [] [] [] 0 [].
 Definition mgr (e : env) : bool := a_mgr (aux_of e).
 
 Definition conn_of (p : N) (e : env) : option bool :=
@@ -439,6 +469,22 @@ Definition open_ok (p : N) (e : env) : bool :=
                       (N.of_nat (length (filter (N.eqb p) (a_cused (aux_of e)))) <? cap_of p e))
   | None => false
   end.
+(* the manager's belief about peer p *)
+Definition mview (cf : cfg) (e : env) (p : N) : N :=
+  match find (fun x => fst x =? p) (a_view (aux_of e)) with
+  | Some x => snd x
+  | None => if p <? ndial cf then 1 else 0
+  end.
+(* TransportManagerHandle::dial, in the order of its checks *)
+Definition dial_res (cf : cfg) (e : env) (p : N) : N :=
+  if selfp cf && (p =? SELF_PEER) then D_SELF
+  else match mview cf e p with
+       | 0 => D_NOADDR
+       | 2 => D_CONNECTED
+       | 3 | 5 | 6 => D_INPROGRESS
+       | 4 => D_NOADDR
+       | _ => if negb (mgr e) then D_TASKCLOSED else if a_clog (aux_of e) then D_CLOGGED else D_OK
+       end.
 Definition with_aux (e : env) (a : aux) : env :=
   mkE a (next_sid e) (conns e) (opens e) (chans e) (now e) (hpend e).
 
@@ -458,7 +504,7 @@ Inductive ev :=
 | EClosed (p : N)
 | EDialFail (p : N)
 | EOpened (k gate neg : N)
-| EOpenFail (k : N) (unsupported : bool)
+| EOpenFail (k : N) (unsupported : N)
 | EUnblock (k : N)
 | EBreakW (k : N)
 | ERespond (k len tag : N)
@@ -472,6 +518,8 @@ Inductive ev :=
 | EBreakConn (p : N)
 | EBurn
 | EDropManager
+| EMgrPeer (p v : N)   (* the manager's belief about peer p becomes v *)
+| EClog (b : bool)     (* the command channel to the manager fills up / is emptied *)
 | EDrain.              (* the scripted connections read their command channels *)
 
 Definition sent_of (o : list out) : list N :=
@@ -485,13 +533,12 @@ Definition step (cf : cfg) (st : pst * env) (e : ev) : (pst * env) * list out * 
   | ESend p dial len tag fb =>
     let connected := memN p (peers s) in
     let ok := open_ok p en in
-    let dial_ok := (p <? ndial cf) && mgr en && negb (selfp cf && (p =? SELF_PEER)) in
-    let '(s1, o) := h_send s p dial len tag fb ok dial_ok (next_sid en) in
+    let '(s1, o) := h_send s p dial len tag fb ok (dial_res cf en p) (next_sid en) in
     (* open_substream draws a substream id before it talks to the connection *)
     let en1 := if connected
                then match conn_of p en with
                     | Some _ =>
-                      if ok then mkE (mkAux (mgr en) (a_caps (aux_of en)) (a_cused (aux_of en) ++ [p]))
+                      if ok then mkE (mkAux (mgr en) (a_caps (aux_of en)) (a_cused (aux_of en) ++ [p]) (a_view (aux_of en)) (a_clog (aux_of en)))
                                      (next_sid en + 1) (conns en) (opens en ++ [(next_sid en, p)]) (chans en) (now en) (hpend en)
                       else mkE (aux_of en) (next_sid en + 1) (conns en) (opens en) (chans en) (now en) (hpend en)
                     | None => en
@@ -511,7 +558,7 @@ Definition step (cf : cfg) (st : pst * env) (e : ev) : (pst * env) * list out * 
       let '(s1, o) := h_established s p nok (next_sid en) in
       (* every attempt draws a substream id, also the failing ones *)
       let en1 := mkE (mkAux (mgr en) (filter (fun x => negb (fst x =? p)) (a_caps (aux_of en)) ++ [(p, cap)])
-                            (a_cused (aux_of en) ++ map (fun _ => p) opened))
+                            (a_cused (aux_of en) ++ map (fun _ => p) opened) (a_view (aux_of en)) (a_clog (aux_of en)))
                      (next_sid en + N.of_nat (length tried)) (conns en ++ [(p, negb broken)])
                      (opens en ++ map (fun po => (po_sid po, p)) (number_pouts p (next_sid en) opened))
                      (chans en) (now en) (hpend en) in
@@ -680,9 +727,14 @@ Definition step (cf : cfg) (st : pst * env) (e : ev) : (pst * env) * list out * 
             (opens en) (chans en) (now en) (hpend en), [], None)
   | EBurn => let '(s1, o) := h_burn s in (s1, en, o, None)
   | EDropManager =>
-    (s, with_aux en (mkAux false (a_caps (aux_of en)) (a_cused (aux_of en))), [], None)
+    (s, with_aux en (mkAux false (a_caps (aux_of en)) (a_cused (aux_of en)) (a_view (aux_of en)) (a_clog (aux_of en))), [], None)
+  | EMgrPeer p v =>
+    (s, with_aux en (mkAux (mgr en) (a_caps (aux_of en)) (a_cused (aux_of en))
+                           ((p, v) :: filter (fun x => negb (fst x =? p)) (a_view (aux_of en))) (a_clog (aux_of en))), [], None)
+  | EClog b =>
+    (s, with_aux en (mkAux (mgr en) (a_caps (aux_of en)) (a_cused (aux_of en)) (a_view (aux_of en)) b), [], None)
   | EDrain =>
-    (s, with_aux en (mkAux (mgr en) (a_caps (aux_of en)) []), [], None)
+    (s, with_aux en (mkAux (mgr en) (a_caps (aux_of en)) [] (a_view (aux_of en)) (a_clog (aux_of en))), [], None)
   end.
 
 (* the whole run: flat list of everything observed *)
@@ -788,6 +840,21 @@ Fixpoint grun (cf : cfg) (g : ghost) (l : list (ev * list out * option N)) : gho
 (* the environment has discharged everything it owes *)
 Definition discharged (g : ghost) : Prop :=
   g_dials g = [] /\ g_opens g = [] /\ forall x, In x (g_live g) -> snd x <= g_now g.
+
+(* The environment discharges everything it owes, by its own books: a DialFailure for each peer of
+   ds, a ConnectionClosed for each peer of cs, then the clock advances by dt. *)
+Definition flush_of (ds cs : list N) (dt : N) : list ev :=
+  map EDialFail ds ++ map EClosed cs ++ [EAdvance dt].
+Fixpoint dedup (l : list N) : list N :=
+  match l with
+  | [] => []
+  | x :: t => if memN x t then dedup t else x :: dedup t
+  end.
+(* ... for the ledger g: every peer with an accepted, unanswered dial, every connected peer (in
+   ascending order, the order in which the harness injects the events), and more than the
+   request timeout *)
+Definition flush_evs (cf : cfg) (g : ghost) : list ev :=
+  flush_of (sort_by (fun x : N => x) (dedup (g_dials g))) (sort_by (fun x : N => x) (dedup (g_conn g))) (2 * tmo cf + 1).
 
 (* ------------------------------------------------------------------ the bounded event channel
 
